@@ -44,6 +44,9 @@ pub struct RefProgram {
     pub labels: Vec<(String, usize)>,
     pub unrecognised: Vec<String>,
     pub handler_labels: Vec<String>,
+    /// labels that an installation may or may not name (the model cannot tell, e.g. because the
+    /// installing code may be dead): neither required to be functions nor forbidden
+    pub maybe_handler_labels: Vec<String>,
     /// where every label is written: (name, file, zero-based line)
     pub label_sites: Vec<(String, String, usize)>,
 }
@@ -221,7 +224,9 @@ pub fn parse(pasted: &[PastedLine]) -> RefProgram {
         // interrupt handler installation: `la R, L` directly before a csr write to utvec (5)
         if matches!(mn.as_str(), "csrrw" | "csrw") {
             let csr_is_utvec = ops.iter().any(|o| o == "utvec" || o == "5");
-            if csr_is_utvec {
+            // (the write must not be a jump target: then the `la` above it is the only way in)
+            let is_jump_target = p.labels.iter().any(|(_, at)| *at == idx);
+            if csr_is_utvec && !is_jump_target {
                 if let Some(prev) = p.instrs.last() {
                     if prev.mnemonic == "la" && prev.operands.len() == 2 && ops.iter().any(|o| *o == prev.operands[0]) {
                         p.handler_labels.push(prev.operands[1].clone());
@@ -231,6 +236,7 @@ pub fn parse(pasted: &[PastedLine]) -> RefProgram {
         }
         p.instrs.push(RefInstr { pasted: pi, file: pl.file.clone(), line: pl.line, flow, mnemonic: mn, operands: ops, ecall_number, ecall_number_is_runtime_input: runtime_number, in_text });
     }
+    let mut jump_installed: Vec<(usize, String)> = Vec::new();
     // interrupt handler installation reached only by a jump: the csr write stands behind a label,
     // the instruction written above it is a known exit (so nothing falls into it), and every jump
     // to that label comes straight after `la R, L` with the same L
@@ -240,8 +246,10 @@ pub fn parse(pasted: &[PastedLine]) -> RefProgram {
             continue;
         }
         let above = &p.instrs[i - 1];
-        let above_is_exit = above.flow == Flow::Ecall && matches!(above.ecall_number, Some(10 | 93)) && !above.ecall_number_is_runtime_input;
-        if !above_is_exit {
+        let is_exit = |x: &RefInstr| x.flow == Flow::Ecall && matches!(x.ecall_number, Some(10 | 93)) && !x.ecall_number_is_runtime_input;
+        // ... or an instruction nothing leads to: no label on it, and an exit above it
+        let above_is_dead = i >= 2 && !p.labels.iter().any(|(_, at)| *at == i - 1) && above.flow == Flow::Plain && is_exit(&p.instrs[i - 2]);
+        if !(is_exit(above) || above_is_dead) {
             continue;
         }
         let my_labels: Vec<&String> = p.labels.iter().filter(|(_, at)| *at == i).map(|(l, _)| l).collect();
@@ -262,8 +270,17 @@ pub fn parse(pasted: &[PastedLine]) -> RefProgram {
         }
         if let Some(Some(first)) = sources.first().cloned() {
             if sources.iter().all(|s| s.as_ref() == Some(&first)) && !p.handler_labels.contains(&first) {
-                p.handler_labels.push(first);
+                jump_installed.push((i, first));
             }
+        }
+    }
+    // ... a claim only where the installing code is certainly live; otherwise no verdict on the label
+    let reach = p.reachable();
+    for (i, label) in jump_installed {
+        if reach.as_ref().is_some_and(|r| r[i]) {
+            p.handler_labels.push(label);
+        } else {
+            p.maybe_handler_labels.push(label);
         }
     }
     // labels at the very end name nothing
